@@ -1025,6 +1025,19 @@ fn proc_has_terminal() -> bool {
     }
 }
 
+#[cfg(cicada_verif)]
+pub mod verif {
+    use super::Shell;
+    use crate::types::Tokens;
+    pub fn expand_one_env(sh: &Shell, token: &str) -> String { super::expand_one_env(sh, token) }
+    pub fn env_in_token(token: &str) -> bool { super::env_in_token(token) }
+    pub fn expand_brace(tokens: &mut Tokens) { super::expand_brace(tokens) }
+    pub fn expand_brace_range(tokens: &mut Tokens) { super::expand_brace_range(tokens) }
+    pub fn expand_alias(sh: &Shell, tokens: &mut Tokens) { super::expand_alias(sh, tokens) }
+    pub fn expand_home(tokens: &mut Tokens) { super::expand_home(tokens) }
+    pub fn need_expand_brace(line: &str) -> bool { super::need_expand_brace(line) }
+}
+
 #[cfg(test)]
 mod tests {
     use std::env;
